@@ -454,7 +454,8 @@ def corrupt_value(v):
             w = dict(v)
             w["n"] = v["n"] + 1
             return w
-        return {"k": "Int", "a": [], "s": "", "n": 7919, "d": 1}
+        # a different value that is also not in canonical form (14/4)
+        return {"k": "Rat", "a": [], "s": "", "n": 14, "d": 4}
     if isinstance(v, list):
         for i, x in enumerate(v):
             c = corrupt_value(x)
